@@ -729,6 +729,9 @@ class _ActionSubCommands(_SubParsersAction):
         if subcommand:
             subcommand_keys = [subcommand]
 
+        if subcommand is not None and subcommand not in action._name_parser_map:
+            raise NSKeyError(f'"{dest}" is expected to be one of {list(action._name_parser_map)}, but got {subcommand!r}')
+
         if fail_no_subcommand:
             if subcommand is None and not (fail_no_subcommand and action._required):  # type: ignore[attr-defined]
                 return None, None
